@@ -592,7 +592,13 @@ fn run_chunked(c: &RechunkCase, cuts: &[(u8, u8)], st: &mut Stats) -> Vec<u64> {
                     let k = size.min(rest.len());
                     st.label("rechunk:observe_elements");
                     ch.observe_elements(&fs(&rest[..k]));
-                    k
+                    if k == 0 {
+                        // an empty chunk absorbs nothing; make progress with a single element
+                        ch.observe_element(F(rest[0]));
+                        1
+                    } else {
+                        k
+                    }
                 }
                 2 if rest.len() >= 2 => {
                     st.label("rechunk:observe_extension_element");
